@@ -155,18 +155,59 @@ fn directed_case(ctx: &Ctx, ch: &mut Ch) -> Outcome {
     check_program(ctx, &s, &text, &feats)
 }
 
+/// Black-box cross-check: `gram run FILE` prints exactly the literal the reference prescribes.
+fn cli_case(ctx: &Ctx, ch: &mut Ch, scratch: &crate::cli::Scratch) -> Outcome {
+    let cfg = ProgCfg { forward_aliases: false, ..ProgCfg::default() };
+    let kind = ch.pick(2);
+    let fuel = 2 + ch.pick(4);
+    let Some(p) = prog::gen_program(ch, cfg, kind, fuel) else { return Ok(()) };
+    let (_tc, k, verdict) = typed::ref_infer(&p.s, true);
+    let (Some(k), RefType::Ok(_)) = (k, verdict) else { return Ok(()) };
+    let (want, _) = typed::ref_eval(&k, 1_000_000);
+    let expected = match &want {
+        RefEval::Value(RefValue::Int(n)) => format!("`{n}`\n"),
+        RefEval::Value(RefValue::Bool(b)) => format!("`{b}`\n"),
+        RefEval::DivisionByZero => String::new(),
+        _ => return Ok(()),
+    };
+    scratch.write("p.g", p.text.as_bytes());
+    let run = crate::cli::run("run", &scratch.dir, "p.g").map_err(|e| Failure::new(e, "cli"))?;
+    if run.status == crate::cli::TIMEOUT_STATUS || run.status >= 1000 {
+        ctx.inconclusive("cli: run timed out or was ended by a signal");
+        return Ok(());
+    }
+    let out = String::from_utf8_lossy(&run.stdout).into_owned();
+    let err = String::from_utf8_lossy(&run.stderr).into_owned();
+    match &want {
+        RefEval::DivisionByZero => {
+            if run.status != 1 || !out.is_empty() || !err.contains("is stuck!") {
+                return Err(Failure::new(format!("the semantics prescribes a division by zero; `gram run` exited {} with stdout {out:?} stderr {err:?}", run.status), p.text.clone()));
+            }
+            ctx.class("cli: `gram run` stops at the division by zero");
+        }
+        _ => {
+            if run.status != 0 || out != expected {
+                return Err(Failure::new(format!("the semantics prescribes {expected:?}; `gram run` exited {} and printed {out:?} (stderr {err:?})", run.status), p.text.clone()));
+            }
+            ctx.class("cli: `gram run` prints the prescribed literal");
+        }
+    }
+    ctx.nontrivial(&p.text);
+    Ok(())
+}
+
 pub fn def(tier: Tier) -> CheckDef {
     let rounds = tier.pick(30, 300);
     CheckDef {
         id: "C02",
         level: "exploration",
-        rule: "proptest-driven type-directed generation of closed well-typed programs (results: int ~50%, bool ~33%, functions / types the rest) with boundary integers (0, 1, around 2^31, 2^63, 2^64, 10^40), all nine operators, every sign combination for division, equal / adjacent comparison operands, conditionals, higher-order and immediately applied functions, groups of 1-5 definitions, recursive and mutually recursive functions, plus directed shapes (poisoned branches, division by zero in an ignored argument and in an unused definition, recursion depth up to 300 / 2000); oracle = an independent environment-based call-by-value interpreter (R-cbv) on the source program versus gram's `step` loop on the elaborated term: same literal, same kind for functions / types, and 'stops at literal / 0' on both sides; fuel exhaustion on either side is inconclusive; non-trivial = the reference takes >= 5 evaluation steps and the program has a call or a group; distinct by program text",
+        rule: "proptest-driven type-directed generation of closed well-typed programs (results: int ~50%, bool ~33%, functions / types the rest) with boundary integers (0, 1, around 2^31, 2^63, 2^64, 10^40), all nine operators, every sign combination for division, equal / adjacent comparison operands, conditionals, higher-order and immediately applied functions, groups of 1-5 definitions, recursive and mutually recursive functions, plus directed shapes (poisoned branches, division by zero in an ignored argument and in an unused definition, recursion depth up to 300 / 2000); oracle = an independent environment-based call-by-value interpreter (R-cbv) on the source program versus gram's `step` loop on the elaborated term: same literal, same kind for functions / types, and 'stops at literal / 0' on both sides; fuel exhaustion on either side is inconclusive; a sample goes through `gram run` and its printed value / `is stuck!` exit is compared with the reference; non-trivial = the reference takes >= 5 evaluation steps and the program has a call or a group; distinct by program text",
         assumptions: vec![
             "call-by-value: applicand, then argument, then the call; operands left to right; definitions of a group in order; only the chosen branch of a conditional",
             "division truncates toward zero; division by zero stops evaluation",
         ],
         idle_limit_s: 120,
-        needs_cli: false,
+        needs_cli: true,
         fuzz: None,
         parts: vec![
             Part {
@@ -175,6 +216,21 @@ pub fn def(tier: Tier) -> CheckDef {
                 run: Box::new(|ctx, r| ctx.prop("generated", r, 400, 600, generated_case)),
                 replay: Some(Box::new(|ctx, inp| match inp {
                     ReplayInput::Choices(c) => generated_case(ctx, &mut Ch::new(c)),
+                    _ => Err(Failure::new("this part replays from choices", "")),
+                })),
+            },
+            Part {
+                name: "cli",
+                rounds: tier.pick(1, 8),
+                run: Box::new(|ctx, r| {
+                    let scratch = crate::cli::Scratch::new(&format!("c02-{}", ctx.shard));
+                    ctx.prop("cli", r, 60, 500, |ctx, ch| cli_case(ctx, ch, &scratch));
+                }),
+                replay: Some(Box::new(|ctx, inp| match inp {
+                    ReplayInput::Choices(c) => {
+                        let scratch = crate::cli::Scratch::new("c02-replay");
+                        cli_case(ctx, &mut Ch::new(c), &scratch)
+                    }
                     _ => Err(Failure::new("this part replays from choices", "")),
                 })),
             },
